@@ -259,13 +259,16 @@ def _oracle_program(ctx, sizes, specs, desc, other_order, sims):
     if not same(M, R):
         ctx.fail("as_matrix:not-product-of-embedded-gates-in-application-order", desc, "E(g_n)...E(g_1)", "differs")
     if other_order is not None and other_order != order:
-        M2 = dense(circ.as_matrix([F[i] for i in other_order]))
-        if not same(M2, ref_circuit(sizes, other_order, specs)):
-            ctx.fail("as_matrix:not-product-of-embedded-gates-in-application-order", dict(desc, order=other_order),
-                     "E(g_n)...E(g_1)", "differs")
-        # and the first field list once more (the same query after a different one)
-        if not same(dense(circ.as_matrix(fl)), R):
-            ctx.fail("as_matrix:repeated-query-differs", dict(desc, order=other_order), "the matrix of the first query", "differs")
+        try:
+            M2 = dense(circ.as_matrix([F[i] for i in other_order]))
+            if not same(M2, ref_circuit(sizes, other_order, specs)):
+                ctx.fail("as_matrix:not-product-of-embedded-gates-in-application-order", dict(desc, order=other_order),
+                         "E(g_n)...E(g_1)", "differs")
+            # and the first field list once more (the same query after a different one)
+            if not same(dense(circ.as_matrix(fl)), R):
+                ctx.fail("as_matrix:repeated-query-differs", dict(desc, order=other_order), "the matrix of the first query", "differs")
+        except Exception as e:
+            ctx.fail("as_matrix:crash:" + type(e).__name__, dict(desc, order=other_order), "matrix", repr(e)[:200])
     if not np.allclose(M @ M.conj().T, np.identity(2 ** nw), atol=1e-10):
         ctx.fail("as_matrix:not-unitary", desc)
     # statevector simulator
@@ -403,7 +406,7 @@ def _oracle_program_large(ctx, sizes, specs, desc):
             if out.shape != r0.shape or not np.allclose(out, r0, rtol=0, atol=1e-10):
                 ctx.fail("tn_simulator:not-first-column", desc, "gates applied to |0..0> in list order", "differs")
         except Exception as e:
-            ctx.fail("tn_simulator:crash:" + type(e).__name__, desc, "state", repr(e)[:200])
+            ctx.fail(classify_tn_error(e, specs).replace("tensornet:crash", "tn_simulator:crash"), desc, "state", repr(e)[:200])
 
 
 # ----------------------------------------------------------------------------- histories
@@ -1072,21 +1075,30 @@ def oracle_array_alias(ctx):
     c = qib.Circuit()
     c.append_gate(g)
     A = dense(c.as_matrix(F))
-    g.mat[:] = np.diag([1, -1])
+    try:
+        g.mat[:] = np.diag([1, -1])
+    except ValueError:
+        pass            # read-only array: nothing the caller could write through
     if not np.array_equal(A, dense(c.as_matrix(F))):
         bad.append("GeneralGate.mat")
     r = qib.RotationGate(np.array([0.25, 0.5, -0.75]), qubit(F, (0, 1)))
     c = qib.Circuit()
     c.prepend_gate(r)
     A = dense(c.as_matrix(F))
-    r.ntheta[:] = [1.0, 0.0, 0.0]
+    try:
+        r.ntheta[:] = [1.0, 0.0, 0.0]
+    except ValueError:
+        pass
     if not np.array_equal(A, dense(c.as_matrix(F))):
         bad.append("RotationGate.ntheta")
     p = qib.PrepareGate([0.5, 0.25, 0.125, 0.125], 2).on([qubit(F, (0, 0)), qubit(F, (0, 1))])
     c = qib.Circuit()
     c.append_gate(p)
     A = dense(c.as_matrix(F))
-    p.vec[:] = [0.125, 0.125, 0.25, 0.5]
+    try:
+        p.vec[:] = [0.125, 0.125, 0.25, 0.5]
+    except ValueError:
+        pass
     if not np.array_equal(A, dense(c.as_matrix(F))):
         bad.append("PrepareGate.vec")
     if bad:
@@ -1244,10 +1256,22 @@ def run(ctx):
                      "alphabet on every object reachable from the added gate, after append and prepend, directly and after the gate "
                      "travelled through a second circuit; circuits built from other circuits (made by builder calls / by the list "
                      "constructor) then mutated through the caller's handle or through other.gates[i], the block added again; every "
-                     "ordered pair of builder calls. non-trivial = program with >=2 gates "
+                     "ordered pair of builder calls. DIMENSIONS OF AN INPUT every generator varies: gates that differ in exactly ONE "
+                     "coordinate inside one circuit (51-55 families per register: order of the particles on the same SET - control/target "
+                     "swapped, two controls permuted, nested controls, the same sparse or dense matrix on every ordering of 2 / 3 wires, "
+                     "iSWAP / Rxx / Ryy / Rzz / phase / multiplexer / prepare with exchanged arguments -, one particle, the field of a "
+                     "particle (same site of another register), a parameter (also nearly equal ones: 2^-28 apart), the control state, "
+                     "the class, the class of the target, the matrix, the memory layout of the matrix, identical gates), each family "
+                     "behind three kinds of input state, through all four views; how the circuit is put together (append / prepend / "
+                     "list constructor / append_circuit+prepend_circuit; equal gates as ONE object listed twice or as distinct objects); "
+                     "simulator INSTANCES and field objects shared by eight consecutive programs; as_matrix with a field listed twice and "
+                     "re-queried with the first list; field modes as in C04 (fields sharing a lattice object, interned qubits, lattice "
+                     "flavours, parameter types) for programs and histories; GeneralGate matrices in every memory layout / dtype, sparse "
+                     "and dense; registers of 7..8 wires (dense) and 9..12 wires (numpy-only state reference: statevector, as_matrix "
+                     "applied to two vectors, tensor-network simulator). non-trivial = program with >=2 gates "
                      "sharing a wire or an idle wire, or builder program composing >=2 gates, or history with a mutation after a "
                      "builder call")
-    ctx.lib(["Embed/CircCheck", "Embed/CircProofs", "Embed/HeapProofs", "Embed/CheckProofs", "Embed/HeapObs"])
+    ctx.lib(["Embed/CircCheck", "Embed/CircProofs", "Embed/HeapProofs", "Embed/CheckProofs", "Embed/HeapObs", "Embed/IdentProofs"])
     ok = ctx.translate("GenCirc", gen_embed.generate_circ)
     if ok:
         ctx.props()
